@@ -54,8 +54,9 @@ type XNode struct {
 	Implicit bool
 	// Grafted marks the root of a subtree added by an augment.
 	Grafted bool
-	// Deviated marks a node named by some deviation.
+	// Deviated marks a node named by some deviation; Removed one deleted by not-supported.
 	Deviated bool
+	Removed  bool
 	Parent   *XNode
 	// ObsRO, ObsInst and ObsErrors are set on trees extracted from the library
 	// (observed values instead of computed ones).
@@ -102,6 +103,7 @@ func (x *XNode) IsDir() bool { return x.Kind != KLeaf && x.Kind != KLeafList }
 
 type compiler struct {
 	s         *Scenario
+	ignoreNS  bool
 	out       *Compiled
 	gstack    []*Grouping
 	conflicts map[string]bool
@@ -115,9 +117,13 @@ func (c *compiler) conflict(format string, a ...interface{}) {
 	}
 }
 
-// Compile interprets the scenario.
-func Compile(s *Scenario) *Compiled {
-	c := &compiler{s: s, out: &Compiled{Trees: map[string]*XNode{}, Identities: map[string][]string{}}, conflicts: map[string]bool{}}
+// Compile interprets the scenario under default options.
+func Compile(s *Scenario) *Compiled { return CompileWith(s, false) }
+
+// CompileWith interprets the scenario; with ignoreNotSupported the target of a
+// not-supported deviation is retained.
+func CompileWith(s *Scenario, ignoreNotSupported bool) *Compiled {
+	c := &compiler{s: s, ignoreNS: ignoreNotSupported, out: &Compiled{Trees: map[string]*XNode{}, Identities: map[string][]string{}}, conflicts: map[string]bool{}}
 	// 1. per-module trees: own body plus included submodules
 	for _, m := range s.Mods {
 		if m.IsSub() {
@@ -621,7 +627,10 @@ func (c *compiler) applyDeviation(m *Mod, d *Deviation) {
 				if p.Kids[tgt.Name] != tgt {
 					c.conflict("deviation %s: target already removed", stepsString(d.Target))
 				}
-				delete(p.Kids, tgt.Name)
+				if !c.ignoreNS {
+					delete(p.Kids, tgt.Name)
+					tgt.Removed = true
+				}
 			}
 		case "add", "replace":
 			if dv.Config != "" {
@@ -773,4 +782,152 @@ func (c *compiler) identities() {
 		}
 		c.out.Identities[key] = SortedNames(seen)
 	}
+}
+
+// MustReport lists the reasons why processing scenario s has to report at
+// least one error, as far as the reference model can tell: the conflicts found
+// by the reference compilation plus the error-carrying constructs the
+// generator injects that need no compilation to spot (bad range, bad config
+// value).  It is computed from the scenario itself, so it stays right while a
+// failing case is being minimised.
+func MustReport(s *Scenario) []string {
+	out := append([]string(nil), Compile(s).Conflicts...)
+	var doType func(t *Type)
+	doType = func(t *Type) {
+		if t == nil {
+			return
+		}
+		if t.Range == "10..1" {
+			out = append(out, "range boundaries out of order")
+		}
+		for _, u := range t.Union {
+			doType(u)
+		}
+	}
+	var doBody func(body []*Node)
+	var doGrouping func(g *Grouping)
+	doBody = func(body []*Node) {
+		for _, n := range body {
+			doType(n.Type)
+			if n.Config != "" && n.Config != "true" && n.Config != "false" {
+				out = append(out, "invalid config value "+n.Config)
+			}
+			for _, td := range n.Typedefs {
+				doType(td.Type)
+			}
+			for _, g := range n.Groupings {
+				doGrouping(g)
+			}
+			doBody(n.Kids)
+		}
+	}
+	doGrouping = func(g *Grouping) {
+		for _, td := range g.Typedefs {
+			doType(td.Type)
+		}
+		for _, x := range g.Groupings {
+			doGrouping(x)
+		}
+		doBody(g.Body)
+	}
+	for _, m := range s.Mods {
+		for _, td := range m.Typedefs {
+			doType(td.Type)
+		}
+		for _, g := range m.Groupings {
+			doGrouping(g)
+		}
+		doBody(m.Body)
+		for _, a := range m.Augments {
+			doBody(a.Body)
+		}
+	}
+	// dangling references anywhere, also in groupings nobody uses (the
+	// reference compilation only expands what is used)
+	seen := map[string]bool{}
+	for _, c := range out {
+		seen[c] = true
+	}
+	add := func(msg string) {
+		if !seen[msg] {
+			seen[msg] = true
+			out = append(out, msg)
+		}
+	}
+	var refType func(t *Type, depth int)
+	refType = func(t *Type, depth int) {
+		if t == nil || depth > 60 {
+			return
+		}
+		if t.Ref.Mod != "" {
+			td := FindTypedef(s, t.Ref)
+			if td == nil {
+				add("unknown typedef " + t.Ref.Mod + ":" + t.Ref.Name)
+			}
+		} else if !builtinKinds[t.Ref.Name] {
+			add("unknown built-in type " + t.Ref.Name)
+		}
+		if t.Base != nil {
+			ok := false
+			if bm := s.Mod(t.Base.Mod); bm != nil {
+				for _, id := range bm.Identities {
+					if id.Name == t.Base.Name {
+						ok = true
+					}
+				}
+			}
+			if !ok {
+				add("identityref base " + t.Base.Mod + ":" + t.Base.Name + " undefined")
+			}
+		}
+		for _, u := range t.Union {
+			refType(u, depth+1)
+		}
+	}
+	var refBody func(body []*Node)
+	var refGrouping func(g *Grouping)
+	refBody = func(body []*Node) {
+		for _, n := range body {
+			if n.Kind == KUses && n.Uses != nil {
+				if g, _ := FindGrouping(s, *n.Uses); g == nil {
+					add("uses of unknown grouping " + n.Uses.Mod + ":" + n.Uses.Name)
+				}
+			}
+			refType(n.Type, 0)
+			for _, td := range n.Typedefs {
+				refType(td.Type, 0)
+			}
+			for _, g := range n.Groupings {
+				refGrouping(g)
+			}
+			refBody(n.Kids)
+		}
+	}
+	refGrouping = func(g *Grouping) {
+		for _, td := range g.Typedefs {
+			refType(td.Type, 0)
+		}
+		for _, x := range g.Groupings {
+			refGrouping(x)
+		}
+		refBody(g.Body)
+	}
+	for _, m := range s.Mods {
+		for _, td := range m.Typedefs {
+			refType(td.Type, 0)
+		}
+		for _, g := range m.Groupings {
+			refGrouping(g)
+		}
+		refBody(m.Body)
+		for _, a := range m.Augments {
+			refBody(a.Body)
+		}
+		for _, d := range m.Deviations {
+			for _, dv := range d.Deviates {
+				refType(dv.Type, 0)
+			}
+		}
+	}
+	return out
 }
